@@ -31,7 +31,7 @@ LEVEL_TEXT = ('Bounded-exhaustive over the joint bit/reference budget of header,
               'the library parser; all alternative valid placements are fed to the parser.')
 LEVEL_NOTE = 'trusted: mc/ref/tlb.py on the bundled block.tlb (decodes the whole main-net block), mc/ref/bits.py, mc/ref/hashmap.py; the reference message encoder is validated against the schema decoder on every case'
 TECHNIQUE = 'small-scope exhaustive enumeration of message shapes around all placement thresholds against a schema-driven reference decoder and encoder'
-RULE += " Edit histories (explorer S): one message with state-init and currency collection, event alphabet of 37 events (serialise message / init / value, parse; set each init field to each alternative; edit the TickTock in place; grams; put/delete/replace extra currencies in place; header fields; destination; anycast; body; attach/detach init), every history of <= 3 (thorough 4) events ending in an observer, replayed on fresh objects: every serialisation must be the block.tlb encoding of the objects' CURRENT fields."
+RULE += " Edit histories (explorer S): one message with state-init and currency collection, event alphabet of 38 events (serialise message / init / value, parse; set each init field to each alternative; edit the TickTock in place; grams; put/delete/replace extra currencies in place; header fields; destination; anycast; body; attach/detach init), every history of <= 3 (thorough 4) events ending in an observer, replayed on fresh objects: every serialisation must be the block.tlb encoding of the objects' CURRENT fields."
 LEVEL_TEXT += ' Plus an explicit-state search over edit/serialise histories of the mutable value objects.'
 ASSUMPTIONS = ['a message whose header alone exceeds a cell (two 30-bit anycast addresses plus maximal amounts) is not a message and is outside the family',
                'int_msg_info src/dest are MsgAddressInt (addr_std); external addresses only where the schema allows MsgAddressExt']
@@ -60,7 +60,7 @@ def headers():
     H.append({'k': 'int', 'f': [1, 1, 0], 'src': A0, 'dest': A1, 'grams': 10 ** 9, 'extra': {}, 'ihr': 0, 'fwd': 0, 'lt': 0, 'at': 0})
     H.append({'k': 'int', 'f': [0, 0, 1], 'src': ['std', -128, 'c', None], 'dest': ['std', 127, 'd', None], 'grams': 0, 'extra': {'1': 1}, 'ihr': 1, 'fwd': big, 'lt': (1 << 64) - 1, 'at': (1 << 32) - 1})
     H.append({'k': 'int', 'f': [1, 0, 0], 'src': A0, 'dest': A0, 'grams': big, 'extra': {'0': 255, str((1 << 32) - 1): (1 << 248) - 1}, 'ihr': big, 'fwd': big, 'lt': 1 << 63, 'at': 1})
-    H.append({'k': 'int', 'f': [1, 1, 1], 'src': ['std', 0, 'e', [1, 1]], 'dest': ['std', -1, 'f', [30, (1 << 30) - 1]], 'grams': 1, 'extra': {'7': 256}, 'ihr': 0, 'fwd': 1, 'lt': 5, 'at': 6})
+    H.append({'k': 'int', 'f': [1, 1, 1], 'src': ['std', 0, 'e', [1, 1]], 'dest': ['std', -1, 'f', [30, (1 << 30) - 1]], 'grams': 1, 'extra': {'7': 256, '8': 0}, 'ihr': 0, 'fwd': 1, 'lt': 5, 'at': 6})
     H.append({'k': 'int', 'f': [0, 1, 0], 'src': ['std', 0, 'g', [30, 1]], 'dest': ['std', 0, 'h', [30, 0]], 'grams': 255, 'extra': {}, 'ihr': 256, 'fwd': 65535, 'lt': 7, 'at': 8})
     # external in
     H.append({'k': 'ext_in', 'src': ['none'], 'dest': A0, 'fee': 0})
@@ -524,7 +524,8 @@ def case_wrappers(rec):
     for k, (nm, bits) in enumerate((('uninitialized', '00'), ('frozen', '01'), ('active', '10'), ('nonexist', '11'))):
         check('AccountStatus', nm, AccountStatus(nm), bits, (), AccountStatus.deserialize, lambda x, nm=nm: x.type_ == nm)
     for grams in (0, 1, 255, 256, (1 << 120) - 1):
-        for extra in ({}, {1: 1}, {0: 255, (1 << 32) - 1: (1 << 248) - 1}, {5: 256, 6: 65535, 7: 1 << 64}):
+        # (an entry whose amount is 0 is an entry: VarUInteger 32 encodes 0 as the empty number, the key stays in the dictionary)
+        for extra in ({}, {1: 1}, {0: 255, (1 << 32) - 1: (1 << 248) - 1}, {5: 256, 6: 65535, 7: 1 << 64}, {3: 0}, {3: 0, 4: 7}):
             eb, er = enc_extra({str(k): v for k, v in extra.items()})
             check('CurrencyCollection', (grams, tuple(extra)), CurrencyCollection(grams, ExtraCurrencyCollection(dict(extra))), RB.coins(grams) + eb, er, CurrencyCollection.deserialize,
                   lambda x, grams=grams, extra=extra: x.grams == grams and (x.other.dict or {}) == extra)
@@ -665,7 +666,7 @@ def _edit_events():
     ev += [('init', 'library', v) for v in (None, 2)]
     ev += [('tick', True), ('tick', False)]                      # in-place edit of the TickTock object held by the init
     ev += [('grams', 0), ('grams', (1 << 120) - 1)]
-    ev += [('extra_put', 9, 5), ('extra_put', 9, 300), ('extra_del', 9), ('extra_new',)]
+    ev += [('extra_put', 9, 5), ('extra_put', 9, 300), ('extra_put', 9, 0), ('extra_del', 9), ('extra_new',)]
     ev += [('info', 'bounce', 0), ('info', 'ihr_fee', 255), ('info', 'created_lt', 1 << 63), ('dest', 1), ('src_anycast',)]
     ev += [('body', 0, 0), ('body', 700, 1), ('msg_init', False), ('msg_init', True)]
     return ev
